@@ -240,14 +240,18 @@ def oracle_stream(pid, sc, ob):
     cs = sc["chunk"]
     accepted = b""
     delivered = b""
-    fill = 0                # bytes in the writer's private buffer
+    fill = 0                # bytes in the writer's private buffer (model: a chunk is handed off when the buffer is full)
     reader_gone = writer_gone = aborted = False
-    parked = False
+    parked = None           # waker ("a"/"b") the consumer last returned Pending with
+    woken = False           # that waker has been woken since
     terminal = None
-    avail_unseen = False    # something was published since the consumer parked
     for op, r0 in zip(ops, res):
         r, _, wk = r0.partition("!")
-        wakes = int(wk) if wk else 0
+        wa, wb = (int(x) for x in wk.split("/")) if wk else (0, 0)
+        if parked == "a" and wa:
+            woken = True
+        if parked == "b" and wb:
+            woken = True
         c, arg = op[0], op[1:]
         if c in "WL":
             data = bytes.fromhex(arg)
@@ -258,10 +262,6 @@ def oracle_stream(pid, sc, ob):
                 accepted += data[:k]
                 published = fill + k >= cs
                 fill = 0 if published else fill + k
-                if pid == "C10" and published and parked and wakes == 0 and not reader_gone:
-                    return "chunk published while the consumer was parked, but no wake-up"
-                if published and wakes:
-                    parked = False
                 if pid == "C11" and reader_gone and published:
                     return "body dropped, yet a chunk-completing write returned Ok"
             elif r == "lo":
@@ -269,56 +269,42 @@ def oracle_stream(pid, sc, ob):
                 n = fill + len(data)
                 if pid == "C11" and reader_gone and n >= cs:
                     return "body dropped, yet write_all completing a chunk returned Ok"
-                if pid == "C10" and n >= cs and parked and wakes == 0 and not reader_gone:
-                    return "chunk published while the consumer was parked, but no wake-up"
-                if n >= cs and wakes:
-                    parked = False
                 fill = n % cs
             elif r in ("we", "le"):
                 if pid == "C08" and not (aborted or reader_gone):
                     return "write to a live body failed"
-                if pid == "C11" and aborted is False and reader_gone is False:
-                    return "write failed without abort/disconnect"
         elif c == "F":
             if r == "fo":
                 if pid == "C11" and reader_gone and fill > 0:
                     return "body dropped, yet flush of %d buffered bytes returned Ok" % fill
                 if pid == "C11" and aborted:
                     return "flush after abort returned Ok"
-                if pid == "C10" and fill > 0 and parked and wakes == 0:
-                    return "flush published data while the consumer was parked, but no wake-up"
-                if fill > 0 and wakes:
-                    parked = False
                 fill = 0
             elif r == "fe":
                 if pid == "C08" and not (aborted or reader_gone):
                     return "flush on a live body failed"
         elif c == "A":
-            if not writer_gone and not aborted:
+            if not writer_gone:
                 aborted = True
-                if pid == "C10" and parked and wakes == 0 and not reader_gone and terminal is None:
-                    return "abort while the consumer was parked, but no wake-up"
-                if wakes:
-                    parked = False
         elif c == "X":
             if not writer_gone:
                 writer_gone = True
-                if pid == "C10" and parked and wakes == 0 and not aborted and not reader_gone:
-                    return "writer dropped while the consumer was parked, but no wake-up"
-                if wakes:
-                    parked = False
                 if not aborted:
                     fill = 0
         elif c == "R":
             reader_gone = True
-        elif c == "P" and r != "p-":
+        elif c in "PQ" and r != "p-":
             pre, ev = r.split(">", 1)
             lo, up, eos = pre.split(":")
             eos = eos == "1"
             kind = ev[0]
-            if pid == "C12" and eos and kind != "N":
+            if pid == "C10" and kind != "P" and parked is not None and not woken:
+                # something was there for the consumer, it had gone to sleep on waker `parked`, and nobody woke that waker
+                return "the consumer parked on waker %s, then %s became available, but that waker was never woken" % (
+                    parked.upper(), {"D": "a chunk", "E": "the error", "N": "the end"}[kind])
+            if pid == "C12" and eos and (kind == "E" or (kind == "D" and len(bytes.fromhex(ev[1:])) > 0)):
                 return "is_end_stream() true but next poll gave %s" % kind
-            if pid == "C11" and aborted and terminal is None and eos:
+            if pid in ("C11", "C12") and aborted and terminal is None and eos:
                 return "is_end_stream() true while an abort error is pending"
             if kind == "D":
                 d = bytes.fromhex(ev[1:])
@@ -329,13 +315,13 @@ def oracle_stream(pid, sc, ob):
                 delivered += d
                 if pid in ("C08", "C11") and not accepted.startswith(delivered):
                     return "delivered bytes are not a prefix of the accepted bytes"
-                parked = False
+                parked, woken = None, False
             elif kind == "E":
                 if pid == "C08" and not aborted:
                     return "error without abort"
                 if terminal is None:
                     terminal = "E"
-                parked = False
+                parked, woken = None, False
             elif kind == "N":
                 if pid == "C11" and aborted and terminal is None:
                     return "clean end after abort"
@@ -343,11 +329,11 @@ def oracle_stream(pid, sc, ob):
                     return "clean end but delivered != accepted"
                 if terminal is None:
                     terminal = "N"
-                parked = False
+                parked, woken = None, False
             elif kind == "P":
                 if pid == "C10" and (writer_gone or aborted):
                     return "Pending although the writer is gone / aborted"
-                parked = True
+                parked, woken = ("b" if c == "Q" else "a"), False
     return None
 
 
@@ -355,7 +341,7 @@ def fam_stream_ops(maxlen=5, chunks=(1, 2, 3)):
     out = []
     k = 0
     for cs in chunks:
-        alphabet = ["W61", "W6162", "L" + "63" * cs, "F", "P", "A", "X", "R"]
+        alphabet = ["W61", "W6162", "L" + "63" * cs, "F", "P", "Q", "A", "X", "R"]
         for n in range(1, maxlen + 1):
             for seq in itertools.product(alphabet, repeat=n):
                 if "R" not in seq and "A" not in seq and n == maxlen and seq[-1] != "P":
